@@ -59,6 +59,9 @@ def abs_expr(e, ids, env):
         return ["v", e.id]
     if isinstance(e, ast.Constant):
         return _cst(e.value)
+    if isinstance(e, ast.UnaryOp) and isinstance(e.op, (ast.USub, ast.UAdd)) and isinstance(e.operand, ast.Constant) \
+            and isinstance(e.operand.value, (int, float)) and not isinstance(e.operand.value, bool):
+        return _cst(-e.operand.value if isinstance(e.op, ast.USub) else e.operand.value)
     if isinstance(e, ast.BoolOp):
         out = ["bo", "1" if isinstance(e.op, ast.And) else "0", str(len(e.values))]
         for v in e.values:
